@@ -6,7 +6,7 @@ Semantic side (property C03): a declarator denotes (name, mods) where mods lists
 identifier outwards (6.7.5): mods(id)=[], mods((D))=mods(D), mods(D[..])=mods(D)+[array], mods(D(..))=mods(D)+[function],
 mods(* q D)=mods(D)+[pointer q].  The AST chain is the mods in that order ending in the TypeDecl that carries the name.
 """
-from pyvc.gx import ANY_INSIDE, Grammar, N, Opt, Star, T
+from pyvc.gx import ANY_INSIDE, ANY_INSIDE_OR_NONE, Grammar, N, Opt, Star, T
 
 STORAGE = {"auto": "AUTO", "register": "REGISTER", "static": "STATIC", "extern": "EXTERN", "typedef": "TYPEDEF",
            "_Thread_local": "_THREAD_LOCAL"}
@@ -87,10 +87,16 @@ def atomic_normalise(A, decl):
         while node is not None and hasattr(node, "type"):
             if isinstance(node, A.Typename) and "_Atomic" in node.quals:
                 inner = node.type
-                if "_Atomic" not in inner.quals:
-                    inner.quals.append("_Atomic")
+                # array and function derivations carry no qualifiers: the qualifier goes to the element / return type (6.7.3p9)
+                q = inner
+                while not hasattr(q, "quals") and hasattr(q, "type"):
+                    q = q.type
+                if hasattr(q, "quals") and "_Atomic" not in q.quals:
+                    q.quals.append("_Atomic")
                 if getattr(inner, "coord", None) is None:
-                    inner.coord = ANY_INSIDE
+                    # the node that now carries the declared name stands at the token that spells the name (C11): that is
+                    # where the dropped wrapper TypeDecl stood
+                    inner.coord = parent.coord if isinstance(parent, A.TypeDecl) and parent.coord is not None else ANY_INSIDE
                 grand.type = inner
                 changed = True
                 break
@@ -269,7 +275,7 @@ def make_declaration_grammar(g: Grammar, gx):
     g.prod("struct-declarator", [N("declarator"), T("COLON"), N("constant-expression")],
            build=lambda v, gx: dict(decl=v[0], init=None, bitsize=v[2]), label="struct-declarator: declarator : constant-expression")
     g.prod("struct-declarator", [T("COLON"), N("constant-expression")],
-           build=lambda v, gx: dict(decl=A.TypeDecl(None, None, None, None), init=None, bitsize=v[1]), label="struct-declarator: : constant-expression")
+           build=lambda v, gx: dict(decl=A.TypeDecl(None, None, None, None, ANY_INSIDE), init=None, bitsize=v[1]), label="struct-declarator: : constant-expression")
 
     g.nt("enum-specifier", "_parse_enum_specifier")
     for idt in ("ID", "TYPEID"):
@@ -413,7 +419,7 @@ def make_declaration_grammar(g: Grammar, gx):
     g.nt("initializer-list", "_parse_initializer_list", opaque=lambda gx, m: A.InitList([OP(m)], mcoord(m)))
     # the optional trailing comma of 6.7.8 `{ initializer-list , }` is attached here (same language as in the standard)
     g.prod("initializer-list", [N("initializer-item"), Star(T("COMMA"), N("initializer-item")), Opt(T("COMMA"))],
-           build=lambda v, gx: A.InitList([v[0]] + [r[1] for r in v[1]], ANY_INSIDE), label="initializer-list: (designation? initializer) (, designation? initializer)* ,?")
+           build=lambda v, gx: A.InitList([v[0]] + [r[1] for r in v[1]], ANY_INSIDE_OR_NONE), label="initializer-list: (designation? initializer) (, designation? initializer)* ,?")
     g.nt("initializer-item", "_parse_initializer_item")
     g.prod("initializer-item", [N("initializer")], build=lambda v, gx: v[0], label="initializer-item: initializer")
     g.prod("initializer-item", [N("designation"), N("initializer")], build=lambda v, gx: A.NamedInitializer(v[0], v[1], None),
@@ -463,7 +469,8 @@ def make_declaration_grammar(g: Grammar, gx):
     g.nt("external-declaration", "_parse_external_declaration", opaque=lambda gx, m: [OP(m)])
     g.prod("external-declaration", [N("declaration")], build=lambda v, gx: v[0], label="external-declaration: declaration")
     g.prod("external-declaration", [N("declaration-specifiers"), N("declarator[id]"), Opt(N("declaration-list")), N("compound-statement")],
-           build=lambda v, gx: [funcdef(v[0][0], v[1], v[2], v[3])], label="function-definition: declaration-specifiers declarator declaration-list? compound-statement")
+           build=lambda v, gx: [funcdef(v[0][0], v[1], v[2], v[3])], label="function-definition: declaration-specifiers declarator declaration-list? compound-statement"
+           ).budget_x = 4   # K&R definitions need two result shapes at once (identifier-list declarator + declaration list)
     # C11 6.7.10 `static_assert-declaration` = static-assert ';' ; at file scope the ';' is the stray-semicolon item below
     # (same language, no node for the semicolon)
     g.prod("external-declaration", [N("static-assert")], build=lambda v, gx: v[0], label="external-declaration: static_assert-declaration (C11)")
